@@ -222,3 +222,84 @@ package channel
 //@   ensures result == nil <==> old(m.phase) == Withdrawing
 //@   ensures result == nil ==> onlyPhase(m, Withdrawn)
 //@   ensures result != nil ==> unchanged(m)
+
+// ---------------------------------------------------------------------------
+// Comparison (C15, C07)
+// ---------------------------------------------------------------------------
+
+// assetEq(a, b): a.Equal(b) for assets (interface contract: a pure equivalence).
+//@ ghost func assetEq(a Asset, b Asset) bool
+//@ axiom forall a Asset :: assetEq(a, a)
+//@ interface Asset
+//@   method Equal
+//@     requires recv != nil
+//@     ensures result == assetEq(recv, arg0)
+//@ end
+
+//@ pred nonNilBals(a []Bal) = forall i int :: 0 <= i && i < len(a) ==> a[i] != nil
+//@ pred nonNilBalances(a Balances) = forall i int :: 0 <= i && i < len(a) ==> nonNilBals(a[i])
+//@ pred balsEq(a []Bal, b []Bal) = len(a) == len(b) && forall i int :: 0 <= i && i < len(a) ==> val(a[i]) == val(b[i])
+//@ pred idxMapEq(a []Index, b []Index) = len(a) == len(b) && forall i int :: 0 <= i && i < len(a) ==> a[i] == b[i]
+//@ pred subAllocEq(s SubAlloc, t SubAlloc) = s.ID == t.ID && balsEq(s.Bals, t.Bals) && idxMapEq(s.IndexMap, t.IndexMap)
+//@ pred subAllocsEq(a []SubAlloc, b []SubAlloc) = len(a) == len(b) && forall i int :: 0 <= i && i < len(a) ==> subAllocEq(a[i], b[i])
+//@ pred nonNilLocked(a []SubAlloc) = forall i int :: 0 <= i && i < len(a) ==> nonNilBals(a[i].Bals)
+//@ pred balancesEq(a Balances, b Balances) = len(a) == len(b) && forall i int :: 0 <= i && i < len(a) ==> balsEq(a[i], b[i])
+//@ pred assetsEq(a []Asset, b []Asset) = len(a) == len(b) && forall i int :: 0 <= i && i < len(a) ==> assetEq(a[i], b[i])
+//@ pred backendsEq(a []wallet.BackendID, b []wallet.BackendID) = len(a) == len(b) && forall i int :: 0 <= i && i < len(a) ==> a[i] == b[i]
+//@ pred nonNilAssets(a []Asset) = forall i int :: 0 <= i && i < len(a) ==> a[i] != nil
+
+//@ func (*SubAlloc).BalancesEqual
+//@   requires nonNilBals(s.Bals) && nonNilBals(b)
+//@   ensures result <==> balsEq(s.Bals, b)
+//@   loop 1
+//@     invariant forall k int :: 0 <= k && k < $i ==> val(s.Bals[k]) == val(b[k])
+
+//@ func (*SubAlloc).indexMapEqual
+//@   ensures result <==> idxMapEq(s.IndexMap, b)
+//@   loop 1
+//@     invariant forall k int :: 0 <= k && k < $i ==> s.IndexMap[k] == b[k]
+
+//@ func (*SubAlloc).Equal
+//@   requires t != nil && nonNilBals(s.Bals) && nonNilBals(t.Bals)
+//@   ensures result == nil <==> subAllocEq(*s, *t)
+
+//@ func SubAllocsAssertEqual
+//@   requires nonNilLocked(a) && nonNilLocked(b)
+//@   ensures result == nil <==> subAllocsEq(a, b)
+//@   loop 1
+//@     invariant forall k int :: 0 <= k && k < $i ==> subAllocEq(a[k], b[k])
+
+//@ func SubAllocsEqual
+//@   requires nonNilLocked(a) && nonNilLocked(b)
+//@   ensures result <==> subAllocsEq(a, b)
+
+//@ func (Balances).AssertEqual
+//@   requires nonNilBalances(b) && nonNilBalances(bals)
+//@   ensures result == nil <==> balancesEq(b, bals)
+//@   loop 1
+//@     invariant forall k int :: 0 <= k && k < $i ==> balsEq(b[k], bals[k])
+//@   loop 2
+//@     invariant 0 <= i && i < len(bals) && len(bals[i]) == len(b[i]) && forall l int :: 0 <= l && l < $i ==> val(bals[i][l]) == val(b[i][l])
+
+//@ func (Balances).Equal
+//@   requires nonNilBalances(b) && nonNilBalances(bals)
+//@   ensures result <==> balancesEq(b, bals)
+
+//@ func AssertAssetsEqual
+//@   requires nonNilAssets(a)
+//@   ensures result == nil <==> assetsEq(a, b)
+//@   loop 1
+//@     invariant forall k int :: 0 <= k && k < $i ==> assetEq(a[k], b[k])
+
+//@ func AssertBackendsEqual
+//@   ensures result == nil <==> backendsEq(a, b)
+//@   loop 1
+//@     invariant forall k int :: 0 <= k && k < $i ==> a[k] == b[k]
+
+//@ pred allocEq(a *Allocation, b *Allocation) =
+//@   backendsEq(a.Backends, b.Backends) && assetsEq(a.Assets, b.Assets) && balancesEq(a.Balances, b.Balances) && subAllocsEq(a.Locked, b.Locked)
+//@ pred allocNonNil(a *Allocation) = nonNilAssets(a.Assets) && nonNilBalances(a.Balances) && nonNilLocked(a.Locked)
+
+//@ func (*Allocation).Equal
+//@   requires b != nil && allocNonNil(a) && allocNonNil(b)
+//@   ensures result == nil <==> allocEq(a, b)
